@@ -5,6 +5,7 @@ cd /repo || exit 2
 if ! git diff --quiet -- pyUSID; then echo "/repo has local source changes; refusing"; exit 2; fi
 git apply "$patch" || { echo "patch does not apply"; exit 2; }
 trap 'git -C /repo checkout -- pyUSID; (cd /verif && PYTHONPATH=/repo:/verif/harness /venv/bin/python harness/gen_all.py >/dev/null 2>&1)' EXIT
+export VERIF_EVIDENCE_DIR=/var/tmp/mutest_evidence
 for p in "$@"; do
   (cd /verif && ./check "$p" --tier "${TIER:-quick}" 2>&1 | grep -E "VIOLATION|KNOWN-FINDING|exit [01]" | cut -c1-400)
 done
